@@ -407,3 +407,18 @@ Example add_race_fixed :
                nth_error (r_adds s) 0 = Some ARejected /\
                step_r Fixed s RRunReturn = Some s' /\ r_pc s' = RReturned [].
 Proof. eexists; eexists. split; [vm_compute; reflexivity|]. repeat split. Qed.
+
+(* non-vacuity of the theorems about a returned Run: three runners (an error, Canceled on
+   cancellation, nil) finishing one after the other; Run returns exactly the error *)
+Example run_returns_join :
+  exists s, run_r Fixed (new_rm [Free (Some 5%Z); OnCancel (Some 0%Z); Free None])
+                  [RRunCas; RSpawn; RRunnerReturn 0; RCollect 0; RRunnerReturn 1; RCollect 1;
+                   RRunnerReturn 2; RCollect 2; RRunReturn] = Some s /\
+            r_pc s = RReturned [5%Z] /\ r_cancelled s = true /\ r_parent s = false.
+Proof. eexists. split; [vm_compute; reflexivity|]. repeat split. Qed.
+
+(* ... and the OnCancel runner cannot return before something cancelled its context *)
+Example oncancel_waits :
+  run_r Fixed (new_rm [Free (Some 5%Z); OnCancel (Some 0%Z)]) [RRunCas; RSpawn; RRunnerReturn 1]
+  = None.
+Proof. vm_compute. reflexivity. Qed.
